@@ -26,11 +26,9 @@ PKG = {
 from vfmeta import META  # noqa: E402
 
 PROPS = {}
-for frag in ("props_pure", "props_beacon", "props_dkg", "props_core", "props_http"):
-    try:
-        m = importlib.import_module(frag)
-    except ModuleNotFoundError:
-        continue
+import glob as _glob
+for _f in sorted(_glob.glob(os.path.join(os.path.dirname(os.path.abspath(__file__)), "props_*.py"))):
+    m = importlib.import_module(os.path.basename(_f)[:-3])
     for pid, part in m.PART.items():
         e = PROPS.setdefault(pid, {"runs": [], "rule": "", "assumptions": [], "race_anchors": []})
         e["runs"] += part.get("runs", [])
